@@ -715,9 +715,10 @@ func (p *parser) unary() (ast.Node, error) {
 
 	var res ast.Node
 
-	// special case for max negative long
+	// special case for max negative long. It only applies to a bare literal: in `-5.foo` the minus negates the whole
+	// member expression (Unary ::= '-' Member), so the integer is left to member().
 	tok := p.peek()
-	if len(ops) > 0 && ops[len(ops)-1] && tok.isInt() {
+	if len(ops) > 0 && ops[len(ops)-1] && tok.isInt() && !p.memberAccessFollows() {
 		p.advance()
 		i, err := strconv.ParseInt("-"+tok.Text, 10, 64)
 		if err != nil {
@@ -741,6 +742,13 @@ func (p *parser) unary() (ast.Node, error) {
 		}
 	}
 	return res, nil
+}
+
+// memberAccessFollows reports whether the token after the current one starts a member access (`.` or `[`). The current
+// token must not be the final EOF token.
+func (p *parser) memberAccessFollows() bool {
+	next := p.tokens[p.pos+1].Text
+	return next == "." || next == "["
 }
 
 func (p *parser) member() (ast.Node, error) {
